@@ -206,6 +206,9 @@ class PolyFacet:
         self.cell = None
         # canonical atoms: hook(node) -> hashable key or None; nodes with the same key are one atom
         self.canon = None
+        # "value of the stored elements": a masked store over a fresh fill (zeros / empty / full / ones) evaluates
+        # to the stored value - the formula the elements kept by that mask (or any sub-mask) carry
+        self.stored_value = False
 
     def zw(self, mask: Node):
         v = self.g.vn(mask)
@@ -438,6 +441,13 @@ class PolyFacet:
             if t is False:
                 return self.of(base)
             return self.node_atom(n)
+        if op == "Scatter" and self.stored_value and n.attr is None:
+            base, idx, val = n.args
+            zv0 = self.of(val).rat.is_const()
+            if zv0 != 0 and base.op == "Call" and base.args and base.args[0].op == "Ext" and \
+                    base.args[0].attr.split(".")[-1] in ("zeros", "zeros_like", "empty", "empty_like", "full",
+                                                         "full_like", "ones", "ones_like"):
+                return self.of(val)
         if op == "Scatter":
             base, idx, val = n.args
             zv = self.of(val).rat.is_const() if n.attr is None else None
